@@ -149,6 +149,27 @@ def run(m: Model, r: Report, tier: str) -> None:
     r.check("self.result.append(int(session))" in ast.unparse(fn.node) or "self.result.append" in ast.unparse(fn.node), "R4", f"{fn.qualname}#result",
             "the result list is no longer filled", loc=fn.loc)
 
+    # once-per-session exploration and result reporting
+    dedup = [n for n in fors[0].body if isinstance(n, ast.If) and "searched_sessions" in ast.unparse(n.test)] if fors else []
+    okd = len(dedup) == 1 and ast.unparse(dedup[0].test).replace(" ", "") == f"notself.config.thoroughand{stackvar}[-1]insearched_sessions" and isinstance(dedup[0].body[-1], ast.Continue)
+    marks = [n for n in fors[0].body if isinstance(n, ast.Expr) and ast.unparse(n).replace(" ", "") == f"searched_sessions.append({stackvar}[-1])"] if fors else []
+    r.check(okd and len(marks) == 1 and dedup[0].lineno < marks[0].lineno, "R4", f"{fn.qualname}#explore-each-session-once",
+            "without --thorough a session is explored from its first stack only: the test `not thorough and stack[-1] in searched_sessions -> continue` "
+            "followed by `searched_sessions.append(stack[-1])` changed", loc=fn.loc)
+    rep_loops = [n for n in fn.node.body if isinstance(n, ast.If) and "positive_results" in ast.unparse(n.test)]
+    okr = False
+    if len(rep_loops) == 1:
+        lp = [n for n in ast.walk(rep_loops[0]) if isinstance(n, ast.For) and "positive_results" in ast.unparse(n.iter)]
+        if len(lp) == 1:
+            ifs_ = [n for n in lp[0].body if isinstance(n, ast.If)]
+            okr = len(ifs_) >= 1 and ast.unparse(ifs_[0].test).replace(" ", "") == "session!=previous_session" and \
+                any(ast.unparse(x) == "previous_session = session" for x in ifs_[0].body) and \
+                any("self.result.append(int(session))" in ast.unparse(x) for x in ifs_[0].body) and \
+                "self.db_handler.insert_session_transition(session, res['stack'])" in ast.unparse(ifs_[0]) and \
+                ast.unparse(rep_loops[0].test).replace(" ", "") == "len(positive_results)>0"
+    r.check(okr, "R4", f"{fn.qualname}#report-each-found-session-once",
+            "every session with a positive result must be appended to the result exactly once (and stored with its stack)", loc=fn.loc)
+
     # ---------------------------------------------------------------- R6
     hh = m.require_function(f"{SCAN}.SessionsScanner.set_session_with_hooks_handling")
     calls = [n for n in ast.walk(hh.node) if isinstance(n, ast.Call) and ast.unparse(n.func) == "self.ecu.set_session"]
